@@ -1,11 +1,13 @@
 """C19 — document transforms visit each target once and leave everything else alone."""
 import common
 import io
+import json
 import random
 
 import apicheck as A
 import cases as C
 import docx as D
+import gen_stylemap as GS
 from common import run_driver
 from gen_docx import DocGen, el
 
@@ -33,13 +35,164 @@ def family(name):
     return lambda e: e
 
 
+KIND_K = {"paragraph": "p", "run": "r", "table": "tbl"}
+STYLE_XML = {"w:p": ("w:pPr", "w:pStyle"), "w:r": ("w:rPr", "w:rStyle"), "w:tbl": ("w:tblPr", "w:tblStyle")}
+MAP_TAGS = {"paragraph": ["h1", "h2:fresh", "h3", "p.a:fresh", "p.b", "div.c > p:fresh", "blockquote > p:fresh", "ul > li:fresh", "ol|ul > li", "p:fresh", "pre", "!"],
+            "run": ["em", "strong", "code", "span.x", "span.y:fresh", "kbd", "", "!"],
+            "table": ["table.t1", "table.t2:fresh", "div.w > table", "table", "!"]}
+
+
+def entry(kind, f):
+    """the three entry points of transforms.py"""
+    from mammoth import documents, transforms
+    if kind == "paragraph":
+        return transforms.paragraph(f)
+    if kind == "run":
+        return transforms.run(f)
+    return transforms.element_of_type(documents.Table, f)
+
+
+def style_table(g, kind):
+    return {"paragraph": g.pstyles, "run": g.rstyles, "table": g.tstyles}[kind]
+
+
+def share_styles(rng, g, blocks):
+    """give SEVERAL paragraphs / runs / tables of the document one and the same style id (in a document as read, equal
+    ids imply equal names; after a restyling transform they need not)"""
+    chosen = {"w:p": rng.choice(g.pstyles)[0], "w:r": rng.choice(g.rstyles)[0], "w:tbl": rng.choice(g.tstyles)[0]}
+    g.shared_ids = {"paragraph": chosen["w:p"], "run": chosen["w:r"], "table": chosen["w:tbl"]}
+    rate = rng.choice([0.4, 0.7, 1.0])
+
+    def walk(node):
+        if isinstance(node, str):
+            return
+        name, _attrs, children = node
+        for c in children:
+            walk(c)
+        if name in STYLE_XML and rng.random() < rate:
+            prn, stn = STYLE_XML[name]
+            pr = next((c for c in children if not isinstance(c, str) and c[0] == prn), None)
+            if pr is None:
+                pr = el(prn)
+                children.insert(0, pr)
+            pr[2][:] = [c for c in pr[2] if isinstance(c, str) or c[0] != stn] + [el(stn, [("w:val", chosen[name])])]
+    for b in blocks:
+        walk(b)
+
+
+def restyle_spec(rng, g, kind):
+    """"restyle by predicate" as data (implemented here and in the Lean driver): WHICH elements (number of children odd / even,
+    style id is ..., style name is ...) get WHAT (style name only - the id is kept -, style id only, or both; to the id / name of
+    another style of the document, to a new one, or to None)"""
+    tbl = style_table(g, kind)
+    ids = [s for s, _ in tbl]
+    names = [n for _, n in tbl if n is not None]
+    shared = getattr(g, "shared_ids", {}).get(kind)
+    spec = {}
+    if rng.random() < 0.6:
+        spec["parity"] = rng.randint(0, 1)
+    if rng.random() < 0.3:
+        spec["idIs"] = shared if shared is not None and rng.random() < 0.5 else rng.choice(ids + [None, None])
+    if rng.random() < 0.12:
+        spec["nameIs"] = rng.choice(names + [None])
+    mode = rng.random()
+    if mode < 0.75:
+        spec["setName"] = rng.choice(names + ["Restyled Name", "heading 1", "Heading 2", "heading 3", None])
+    if mode >= 0.45:
+        spec["setId"] = rng.choice(ids + ["Restyled", "Restyled", None])
+    return spec
+
+
+def restyle_fn(spec):
+    from mammoth import documents
+
+    def f(e):
+        if not isinstance(e, (documents.Paragraph, documents.Run, documents.Table)):
+            return e
+        if "parity" in spec and len(e.children) % 2 != spec["parity"] % 2:
+            return e
+        if "idIs" in spec and e.style_id != spec["idIs"]:
+            return e
+        if "nameIs" in spec and e.style_name != spec["nameIs"]:
+            return e
+        kw = {}
+        if "setId" in spec:
+            kw["style_id"] = spec["setId"]
+        if "setName" in spec:
+            kw["style_name"] = spec["setName"]
+        return e.copy(**kw)
+    return f
+
+
+def conv_options(rng, g, kind, spec):
+    """options for converting the transformed document: style maps that tell styles apart by NAME and by ID (the names and
+    ids of the document's styles and the ones a restyle introduces), on top of / instead of the default style map"""
+    sel = {"paragraph": "p", "run": "r", "table": "table"}
+    lines = []
+    for k2 in (kind, rng.choice(["paragraph", "run", "table"])):
+        tbl = style_table(g, k2)
+        names = [n for _, n in tbl if n is not None] + ["Restyled Name", "heading 1"]
+        ids = [s for s, _ in tbl] + ["Restyled"]
+        for key in ("setName", "nameIs"):
+            if k2 == kind and (spec or {}).get(key) is not None:
+                names += [spec[key]] * 3
+        for _ in range(rng.choice([0, 1, 2, 2, 3])):
+            if rng.random() < 0.65:
+                n = rng.choice(names)
+                op = "="
+                if rng.random() < 0.2:
+                    n, op = n[:rng.randint(1, len(n))], "^="
+                if rng.random() < 0.3:
+                    n = n.swapcase()
+                m = "%s[style-name%s%s]" % (sel[k2], op, GS.print_string(n))
+            else:
+                m = "%s.%s" % (sel[k2], GS.print_ident(rng.choice(ids)))
+            lines.append("%s => %s" % (m, rng.choice(MAP_TAGS[k2])))
+    if rng.random() < 0.3:
+        lines.insert(rng.randrange(len(lines) + 1), C.safe_style_map(rng, C.pools_of(g), hostile=0.1, allow_sep=False, allow_bang=rng.random() < 0.3, junk=0.05))
+    opts = {}
+    if lines:
+        opts["styleMap"] = "\n".join(lines)
+    if rng.random() < 0.2:
+        opts["includeDefault"] = False
+    if rng.random() < 0.2:
+        opts["ignoreEmpty"] = False
+    if rng.random() < 0.15:
+        opts["idPrefix"] = "doc-"
+    if rng.random() < 0.1:
+        opts["format"] = "markdown"
+    return opts
+
+
+def real_convert(data, opts, transform=None):
+    """mammoth.convert_to_html / convert_to_markdown(fileobj, transform_document=..., **options) -> {value, messages} | {err}"""
+    import mammoth
+    try:
+        with D.time_limit():
+            kw = D.real_options(opts, [])
+            if transform is not None:
+                kw["transform_document"] = transform
+            r = (mammoth.convert_to_markdown if opts.get("format") == "markdown" else mammoth.convert_to_html)(io.BytesIO(data), **kw)
+            return {"value": r.value, "messages": A.norm_messages([m.message for m in r.messages])}
+    except D.DidNotTerminate:
+        return {"err": "DidNotTerminate"}
+    except Exception as e:  # noqa
+        return {"err": D.err_kind(e), "err_text": repr(e)[:300]}
+
+
+def same_result(r, m):
+    if "err" in r or "err" in m:
+        return r.get("err") == m.get("err")
+    return (r["value"], r["messages"]) == (m.get("value"), m.get("messages"))
+
+
 def run(out, tier, seed, model_ok):
     import mammoth
     from mammoth import documents, transforms
     from mammoth import docx as mdocx
     rng = random.Random(seed * 7919 + 19)
     n = common.deepen(500 if tier == "quick" else 6000)
-    lines, meta = [], []
+    lines, meta, conv_lines = [], [], []
     for i in range(n):
         g = DocGen(seed * 1000003 + i, PROFILE)
         blocks = g.blocks(0, rng.randint(1, 4))
@@ -49,44 +202,58 @@ def run(out, tier, seed, model_ok):
             # structurally equal siblings
             p = g.paragraph(0, allow_deleted=False)
             blocks += [p, p]
+        want_table = rng.random() < 0.2      # the element_of_type(Table, f) entry point, on a document that has tables
+        if want_table:
+            for _ in range(rng.randint(1, 2)):
+                blocks.insert(rng.randrange(len(blocks) + 1), g.table(0))
+        if rng.random() < 0.5:
+            share_styles(rng, g, blocks)
         parts = g.package(blocks)
         data = D.build_docx(parts)
         try:
             doc = mdocx.read(io.BytesIO(data)).value
         except Exception as e:  # noqa
             continue
-        kind = rng.choice(["paragraph", "run"])
-        fname = rng.choice(["id", "record", "restyle", "nochildren", "dup"])
+        kind = "table" if want_table else rng.choice(["paragraph", "run"])
+        fname = rng.choice(["id", "record", "restyle", "nochildren", "dup", "restylep", "restylep", "restylep"])
         log = []
-        base = family(fname)
+        spec = restyle_spec(rng, g, kind) if fname == "restylep" else None
+        base = restyle_fn(spec) if spec is not None else family(fname)
 
         def f(e, base=base, log=log):
             log.append(D.elem_to_json(e))
             return base(e)
-        tf = transforms.paragraph(f) if kind == "paragraph" else transforms.run(f)
+        tf = entry(kind, f)
         try:
             doc2 = tf(doc)
         except Exception as e:  # noqa
-            out.violation("transform raised %s" % type(e).__name__, {"kind": "transform", "parts": parts, "entry": kind, "f": fname})
+            out.violation("transform raised %s" % type(e).__name__, {"kind": "transform", "parts": parts, "entry": kind, "f": fname, "restyle": spec})
             continue
         desc = [D.elem_to_json(e) for e in transforms.get_descendants(doc)]
         dpar = [D.elem_to_json(e) for e in transforms.get_descendants_of_type(doc, documents.Paragraph)]
         drun = [D.elem_to_json(e) for e in transforms.get_descendants_of_type(doc, documents.Run)]
         dj = D.doc_to_json(doc)
-        meta.append(dict(parts=parts, kind=kind, f=fname, log=log, doc2=D.doc_to_json(doc2), desc=desc, dpar=dpar, drun=drun, doc=dj, data=data))
+        # the conversion with the transform (what convert_to_html(fileobj, transform_document=...) returns), under options
+        # whose style map tells the restyled elements from the others
+        copts = conv_options(rng, g, kind, spec)
+        creal = real_convert(data, copts, entry(kind, base))
+        meta.append(dict(parts=parts, kind=kind, f=fname, log=log, doc2=D.doc_to_json(doc2), desc=desc, dpar=dpar, drun=drun, doc=dj, data=data,
+                         restyle=spec, copts=copts, creal=creal))
         # images are closures on the real side: make the JSON the codec accepts
-        lines.append({"op": "transform", "doc": fix_images(dj), "kind": kind, "f": fname})
+        lines.append(dict({"op": "transform", "doc": fix_images(dj), "kind": kind, "f": fname}, **({"restyle": spec} if spec is not None else {})))
+        tline = dict({"kind": kind, "f": fname}, **({"restyle": spec} if spec is not None else {}))
+        conv_lines.append({"op": "api", "parts": parts, "options": copts, "base": None, "world": [], "transform": tline})
         # independent observations
-        targets = [e for e in desc if e["k"] == ("p" if kind == "paragraph" else "r")]
+        targets = [e for e in desc if e["k"] == KIND_K[kind]]
         out.count(key="tf-%d-%d" % (seed, i), nontrivial=len(targets) >= 2)
-        case = {"kind": "transform", "parts": parts, "entry": kind, "f": fname}
+        case = {"kind": "transform", "parts": parts, "entry": kind, "f": fname, "restyle": spec}
         if len(log) != len(targets):
             out.violation("the callback was called %d times, the document body has %d %ss" % (len(log), len(targets), kind), case)
         if fname in ("id", "record"):
             if D.doc_to_json(doc2) != dj:
                 out.violation("an identity transform changed the document", case)
             a = mammoth.convert_to_html(io.BytesIO(data)).value
-            tf2 = transforms.paragraph(base) if kind == "paragraph" else transforms.run(base)
+            tf2 = entry(kind, base)
             b = mammoth.convert_to_html(io.BytesIO(data), transform_document=tf2).value
             if a != b:
                 out.violation("an identity transform changed the conversion result", case, expected=a, actual=b)
@@ -119,7 +286,7 @@ def run(out, tier, seed, model_ok):
             if "error" in m:
                 out.correspondence_breaks.append("transform driver error: " + m["error"])
                 continue
-            case = {"kind": "transform", "parts": mt["parts"], "entry": mt["kind"], "f": mt["f"]}
+            case = {"kind": "transform", "parts": mt["parts"], "entry": mt["kind"], "f": mt["f"], "restyle": mt["restyle"]}
             probs = []
             if strip_img(m["log"]) != strip_img(mt["log"]):
                 probs.append("the sequence of elements the callback received differs from the post-order specification")
@@ -131,9 +298,48 @@ def run(out, tier, seed, model_ok):
                 probs.append("get_descendants_of_type differs from the filtered list")
             if probs:
                 out.violation("; ".join(probs), case)
+    if model_ok and conv_lines:
+        # "put the returned element in its place": converting with transform_document=t gives the conversion of t(document)
+        # (specification value: the Lean converter applied to the Lean transform of the document as read)
+        ms = run_driver(conv_lines, tag="tfconv")
+        nbreak = 0
+        changed = {}
+        out.extra["conversions_with_transform"] = changed     # family/entry -> [cases, cases where the transform changed the document]
+        # smaller packages first, so that the first reported failing input is a small one
+        for k, mt in sorted(enumerate(meta), key=lambda km: (len(json.dumps(km[1]["parts"])), km[0])):
+            m = ms[k]
+            r = mt["creal"]
+            if "error" in m:
+                out.correspondence_breaks.append("api driver error: " + str(m.get("error")))
+                continue
+            fam = mt["f"] + "/" + mt["kind"]
+            changed.setdefault(fam, [0, 0])[0] += 1
+            if mt["doc2"] != mt["doc"]:
+                changed[fam][1] += 1
+            if same_result(r, m):
+                continue
+            case = {"kind": "transform", "parts": mt["parts"], "entry": mt["kind"], "f": mt["f"], "restyle": mt["restyle"], "options": mt["copts"]}
+            rplain = real_convert(mt["data"], mt["copts"])
+            mplain = run_driver([{k2: v for k2, v in conv_lines[k].items() if k2 != "transform"}], tag="tfplain")[0]
+            if "error" in mplain or not same_result(rplain, mplain):
+                # the conversion of the UNTRANSFORMED document already differs from the model's: not a statement about transforms
+                nbreak += 1
+                if nbreak <= 3:
+                    out.correspondence_breaks.append("conversion (no transform) differs from the Lean model's on input %s" % common.write_replay("C19", dict(
+                        property="C19", kind="correspondence-break", case=case, expected=mplain, actual=rplain)))
+                continue
+            exp = {k2: m.get(k2) for k2 in ("value", "messages", "err") if k2 in m}
+            act = {k2: r.get(k2) for k2 in ("value", "messages", "err", "err_text") if k2 in r}
+            out.violation("convert_to_%s(fileobj, transform_document=transforms.%s(f)) is not the conversion of the document with the returned elements in "
+                          "place (f = %s; without the transform the conversion is as specified): expected %s, got %s"
+                          % (mt["copts"].get("format", "html"), mt["kind"] if mt["kind"] != "table" else "element_of_type(Table, f)",
+                             mt["f"] if mt["restyle"] is None else "restyle %s" % json.dumps(mt["restyle"]),
+                             json.dumps(exp, ensure_ascii=False)[:500], json.dumps(act, ensure_ascii=False)[:500]), case, expected=exp, actual=act)
     out.rule = ("documents read by the real reader from generated packages (nested tables, hyperlinks, text boxes, paragraphs left inside runs, structurally equal siblings) x "
-                "entry point paragraph/run x a transform family (identity, record-only, restyle, drop children, duplicate children) implemented on both sides; observation: the "
+                "entry point paragraph/run/element_of_type(Table) x a transform family (identity, record-only, restyle all, restyle by predicate [children odd/even, style id is, "
+                "style name is -> new style name and/or style id, several elements sharing one style id], drop children, duplicate children) implemented on both sides; observation: the "
                 "call log (arguments in order), the transformed document, get_descendants and get_descendants_of_type, compared with the Lean transformM/descendants model; "
+                "convert_to_html/markdown(fileobj, transform_document=t, style maps by style name and id) compared with the Lean conversion of the Lean-transformed document; "
                 "independent counts of targets and nodes; identity transform leaves the conversion unchanged; non-trivial = at least two targets")
     if meta:
         out.sample({"entry": meta[0]["kind"], "f": meta[0]["f"], "calls": len(meta[0]["log"])})
